@@ -203,9 +203,10 @@ def check_C19(rep, known):
     import random
     rng = random.Random(rep.seed)
     n = 3000 if rep.tier == 'thorough' else 320
-    plain = [r for r in recs if not r['sc']['scaled']]
+    plain = [r for r in recs if not r['sc']['scaled'] and not r['sc']['multi']]
     scaled = [r for r in recs if r['sc']['scaled']]
-    recs = rng.sample(plain, min(n, len(plain))) + rng.sample(scaled, min(n // 8, len(scaled)))
+    multi = [r for r in recs if r['sc']['multi']]
+    recs = rng.sample(plain, min(n, len(plain))) + rng.sample(scaled, min(n // 3, len(scaled))) + rng.sample(multi, min(n // 3, len(multi)))
     outs = engine.pool_map('funs', 'replay', recs)
     engine.process_results(rep, recs, outs, [r'C19\.'], known)
 
@@ -225,12 +226,12 @@ def check_C03(rep, known):
                 key = (r['sc']['fam'], intg, json.dumps([r['sc']['t0'], r['sc']['T'], r['sc']['seed']]))
                 errs.setdefault(key, {})[int(m[1:])] = float(d)
     for (fam, intg, _), e in errs.items():
-        p_ = 4 if intg == 'rk' else 1
+        p_ = {'rk': 4, 'dc-radau2': 3, 'dc-legendre2': 4}.get(intg, 1)
         for m in (1, 2, 4):
             if m in e and 2 * m in e and e[m] > 1e-9:
                 ratio = e[m] / max(e[2 * m], 1e-300)
                 # asymptotic rate on the finest pair, monotone decrease before
-                if intg == 'rk': ok = ratio >= 0.8 * 2 ** p_
+                if intg != 'expl_euler': ok = ratio >= 0.8 * 2 ** p_
                 else: ok = (1.4 <= ratio <= 3.0) if m == 4 else True      # coarser pairs are pre-asymptotic
                 rep.count('C03.a:rate:' + intg, 'ok' if ok else 'mismatch')
                 if not ok:
